@@ -115,9 +115,15 @@ impl TryFrom<&Circuit> for CompilableCircuit {
                     };
 
                     // Create a CompilableGate for the measurement operation
+                    // An empty qubit list means "measure every qubit", exactly as State::measure reads it
+                    let measured: Vec<usize> = if targets.is_empty() {
+                        (0..num_qubits).collect()
+                    } else {
+                        targets.clone()
+                    };
                     let gate = CompilableGate {
                         operator: Box::new(measurement_op),
-                        targets: targets.clone(),
+                        targets: measured,
                         controls: vec![],
                     };
 
